@@ -20,7 +20,7 @@ Definition qsqrt (x : Q) : option Q :=
 
 (* numpy.isclose(x, 0) with the default rtol = 1e-5, atol = 1e-8:  |x - 0| <= atol + rtol*|0|.
    atol is the binary64 number written 1e-8 (its exact rational value) *)
-Definition orient_atol : Q := 6189700196426901 # 618970019642690137449562112.
+Definition orient_atol : Q := 3022314549036573 # 302231454903657293676544.
 Definition orient_rtol : Q := 1 # 100000.
 
 (* ---------- validity specification of the constructor ---------- *)
